@@ -8,6 +8,8 @@ CONSTANTS
   Mode = "fullsend"
   H = 1
   N = 0
+  PerRecordSweep = FALSE
+  SnapshotSweep = FALSE
   Target = "conn"
 SPECIFICATION Spec
 INVARIANTS Emit
